@@ -152,7 +152,7 @@ variable (c : Cfg) (ev : Ev) (s : St)
 /-- growing-season flag of the day about to be simulated -/
 def gsOf : Bool :=
   decide (0 ≤ s.season) && decide ((c.pl s.season.toNat : Int) ≤ s.t) &&
-    decide ((s.t : Int) ≤ c.hv s.season.toNat) && !s.mature && !s.dead
+    decide ((s.t : Int) < c.hv s.season.toNat) && !s.mature && !s.dead
 def matOf : Bool := s.mature || (gsOf c s && (ev s.t).1)
 def deadOf : Bool := s.dead || (gsOf c s && (ev s.t).2)
 /-- end-of-season condition of the "Final output" block -/
@@ -182,7 +182,7 @@ theorem solCore_phOf (c : Cfg) (ev : Ev) (s : St) :
   · have h0' : s.season ≥ 0 := h0
     simp only [h0', if_true, decide_true, Bool.true_and]
     cases s.harvestFlag <;>
-      cases (decide ((c.pl s.season.toNat : Int) ≤ s.t) && decide ((s.t : Int) ≤ c.hv s.season.toNat)
+      cases (decide ((c.pl s.season.toNat : Int) ≤ s.t) && decide ((s.t : Int) < c.hv s.season.toNat)
         && !s.mature && !s.dead) <;> simp
   · have h0' : ¬ s.season ≥ 0 := h0
     simp [h0']
@@ -369,9 +369,10 @@ theorem live_same {ev : Ev} {s : St} (hL : Live c s) (hfin : finOf c ev s = fals
     have hd' : s.dead = false := by unfold deadOf at hd; simp at hd; exact hd.1
     have hc := hL.cur h0
     have hh' : (s.t : Int) ≤ c.hv s.season.toNat := by omega
+    have hlt : (s.t : Int) < c.hv s.season.toNat := by omega
+    have hpl : (c.pl s.season.toNat : Int) ≤ s.t := by omega
     have hg : gsOf c s = true := by
-      unfold gsOf; simp only [hm', hd', hh', h0, decide_true, Bool.true_and, Bool.not_false,
-        Bool.and_true, decide_eq_true_eq]; omega
+      unfold gsOf; simp only [hm', hd', hlt, hpl, h0, decide_true, Bool.not_false, Bool.and_true]
     have := hL.dapI h0 hm' hd' hh'
     simp only [dapOf, hg, if_true]; omega
   · intro h; exact hlast h
@@ -573,7 +574,7 @@ theorem hist_sol {ev : Ev} {s : St} (hL : Live c s) (hH : Hist c s.rowsRev s.sum
         unfold gsOf at hg'
         simp only [Bool.and_eq_true, decide_eq_true_eq, Bool.not_eq_eq_eq_not, Bool.not_true] at hg'
         obtain ⟨⟨⟨⟨h0, hp⟩, hh⟩, hm⟩, hd⟩ := hg'
-        have := hL.dapI h0 hm hd hh
+        have := hL.dapI h0 hm hd (by omega)
         simp only [rowOf_season, rowOf_t, rowOf_dap, dapOf, hg, if_true]
         omega
       · intro hg
@@ -1340,6 +1341,210 @@ theorem harvest_by_latest_date (hv : Valid c) {ev : Ev} {s : St} (hr : Reach c e
   exact (histH_of_reach hv hr).1.sumDate (k, t) (by simpa [St.summary] using h)
 
 
+/-! ### The latest harvest date is not a growing day (needs only `WF`)
+
+`solution_single_time_step` tests `harvest_date > step_start_time` (repository commit d260679;
+before it the test was `>=`, and with the off-season simulated the harvest date itself was still
+a growing day of a season whose summary row had already been written). -/
+
+/-- what the ghost column `gs` of a row means: the growing-season test of the day, in closed form
+(in a season, on or after its planting date, **strictly before its latest harvest date**, crop
+neither mature nor dead at the start of the day — the last two are what `mature`/`dead` of the
+*previous* row of the season say, so they are not repeated here) -/
+theorem gs_meaning (hw : WF c) {ev : Ev} {s : St} (hr : Reach c ev s) :
+    ∀ r ∈ s.rows, r.gs = true →
+      0 ≤ r.season ∧ c.pl r.season.toNat ≤ r.t ∧ (r.t : Int) + 1 ≤ c.hv r.season.toNat := by
+  induction hr with
+  | init hi =>
+    unfold init at hi
+    split at hi
+    · cases hi
+    · split at hi
+      · cases hi
+      · cases hi; simp [St.rows]
+  | @step s s' hr' hp ih =>
+    have hL := (good_of_reach hw hr').live (unfinished_of_perform_ok hp)
+    rw [perform_eq hw ev hL] at hp
+    cases hp
+    intro r hmem hg
+    simp only [St.rows, List.mem_reverse, stepT_rows, sol_rows, List.mem_cons] at hmem
+    rcases hmem with rfl | hmem
+    · simp only [rowOf_gs] at hg
+      unfold gsOf at hg
+      simp only [Bool.and_eq_true, decide_eq_true_eq, Bool.not_eq_eq_eq_not, Bool.not_true] at hg
+      obtain ⟨⟨⟨⟨h0, hp⟩, hh⟩, _⟩, _⟩ := hg
+      simp only [rowOf_season, rowOf_t]
+      exact ⟨h0, by omega, by omega⟩
+    · exact ih r (by simpa [St.rows] using hmem) hg
+
+/-- **A growing day lies strictly before the season's latest harvest date**: a row with
+`growing_season = True` has `t + 1 ≤ harvest[season]`. -/
+theorem gs_before_harvest (hw : WF c) {ev : Ev} {s : St} (hr : Reach c ev s) :
+    ∀ r ∈ s.rows, r.gs = true → (r.t : Int) + 1 ≤ c.hv r.season.toNat :=
+  fun r hmem hg => (gs_meaning hw hr r hmem hg).2.2
+
+/-- **No growing day on or after the latest harvest date**: a simulated day of season `k ≥ 0` on or
+after `harvest[k]` has `growing_season = False` and `dap = 0`. -/
+theorem no_growing_day_from_harvest_date (hw : WF c) {ev : Ev} {s : St} (hr : Reach c ev s) :
+    ∀ r ∈ s.rows, c.hv r.season.toNat ≤ (r.t : Int) → r.gs = false ∧ r.dap = 0 := by
+  intro r hmem hle
+  have hg : r.gs = false := by
+    cases hg : r.gs with
+    | false => rfl
+    | true => have := gs_before_harvest hw hr r hmem hg; omega
+  refine ⟨hg, ?_⟩
+  have := dap_counts hw hr r hmem
+  simpa [hg] using this
+
+/-- why the harvest flag of the current season is up: the crop is mature or dead, or the day about
+to be simulated is on or after the latest harvest date — in each case that day is not a growing
+day -/
+structure LiveG (c : Cfg) (s : St) : Prop where
+  flagWhy : s.harvestFlag = true →
+    s.mature = true ∨ s.dead = true ∨ c.hv s.season.toNat ≤ (s.t : Int)
+
+/-- in a newest-first list of rows: after a row of a season that met the end-of-season condition
+no later row of that season is a growing day -/
+def NoGsAfterEnd (rows : List Row) : Prop :=
+  ∀ r ∈ rows, ∀ r' ∈ rows, r.season = r'.season → r.endc = true → r.t < r'.t → r'.gs = false
+
+theorem gsOf_false_of_flag {s : St} (hG : LiveG c s) (hf : s.harvestFlag = true) :
+    gsOf c s = false := by
+  unfold gsOf
+  rcases hG.flagWhy hf with h | h | h
+  · simp [h]
+  · simp [h]
+  · have : ¬ ((s.t : Int) < c.hv s.season.toNat) := by omega
+    simp [this]
+
+theorem sol_flagWhy {ev : Ev} {s : St} (hG : LiveG c s)
+    (h : (s.harvestFlag || endcOf c ev s) = true) :
+    matOf c ev s = true ∨ deadOf c ev s = true ∨ c.hv s.season.toNat ≤ (s.t : Int) + 1 := by
+  cases hf : s.harvestFlag with
+  | true =>
+    rcases hG.flagWhy hf with h1 | h1 | h1
+    · left; simp [matOf, h1]
+    · right; left; simp [deadOf, h1]
+    · right; right; omega
+  | false =>
+    rw [hf] at h
+    simp only [Bool.false_or] at h
+    unfold endcOf at h
+    simp only [Bool.and_eq_true, Bool.or_eq_true, decide_eq_true_eq] at h
+    rcases h.2 with (h1 | h1) | h1
+    · exact Or.inl h1
+    · exact Or.inr (Or.inl h1)
+    · right; right; omega
+
+theorem noGs_sol {ev : Ev} {s : St} (hL : Live c s) (hG : LiveG c s)
+    (hN : NoGsAfterEnd s.rowsRev) : NoGsAfterEnd (sol c ev s).rowsRev := by
+  intro r hr r' hr' hs he ht
+  rw [sol_rows, List.mem_cons] at hr hr'
+  rcases hr' with rfl | hr'
+  · rcases hr with rfl | hr
+    · exact absurd ht (Nat.lt_irrefl _)
+    · -- an earlier row of the current season met the end condition: the flag is up
+      have hf := hL.flagI.mpr ⟨r, hr, hs, he⟩
+      simpa using gsOf_false_of_flag hG hf
+  · rcases hr with rfl | hr
+    · have := (hL.rowsB r' hr').1
+      simp only [rowOf_t] at ht; omega
+    · exact hN r hr r' hr' hs he ht
+
+theorem histG_stepT (_hw : WF c) (ev : Ev) {s : St} (hL : Live c s) (hG : LiveG c s)
+    (hN : NoGsAfterEnd s.rowsRev) :
+    NoGsAfterEnd (stepT c ev s).rowsRev ∧
+      ((stepT c ev s).finished = false → LiveG c (stepT c ev s)) := by
+  refine ⟨by rw [stepT_rows]; exact noGs_sol hL hG hN, fun hf => ?_⟩
+  cases hfin : finOf c ev s with
+  | true => rw [stepT_fin c ev s hfin] at hf; cases hf
+  | false =>
+    obtain ⟨_, hlast⟩ := finOf_false hfin
+    have hshi := hL.shi
+    cases hj : ((s.harvestFlag || endcOf c ev s) && !c.offSeason) with
+    | true =>
+      by_cases hn : s.season < c.nSeasons - 1
+      · rw [stepT_jump c ev s hfin hj hn]
+        exact ⟨fun h => by cases h⟩
+      · have hs : s.season = c.nSeasons - 1 := by omega
+        have := hlast hs
+        rw [this] at hj; simp at hj
+    | false =>
+      by_cases hnp : s.season < c.nSeasons - 1 ∧ s.t + 1 = c.pl (s.season + 1).toNat
+      · rw [stepT_new c ev s hfin hj hnp.1 hnp.2]
+        exact ⟨fun h => by cases h⟩
+      · rw [stepT_same c ev s hfin hj hnp]
+        refine ⟨fun h => ?_⟩
+        have h : (s.harvestFlag || endcOf c ev s) = true := h
+        rcases sol_flagWhy hG h with h1 | h1 | h1
+        · exact Or.inl h1
+        · exact Or.inr (Or.inl h1)
+        · right; right
+          show c.hv s.season.toNat ≤ ((s.t + 1 : Nat) : Int)
+          omega
+
+theorem histG_of_reach (hw : WF c) {ev : Ev} {s : St} (hr : Reach c ev s) :
+    NoGsAfterEnd s.rowsRev ∧ (s.finished = false → LiveG c s) := by
+  induction hr with
+  | init hi =>
+    unfold init at hi
+    split at hi
+    · cases hi
+    · split at hi
+      · cases hi
+      · cases hi
+        exact ⟨fun r hr => (by cases hr), fun _ => ⟨fun h => (by cases h)⟩⟩
+  | @step s s' hr' hp ih =>
+    have hf := unfinished_of_perform_ok hp
+    have hL := (good_of_reach hw hr').live hf
+    rw [perform_eq hw ev hL] at hp
+    cases hp
+    exact histG_stepT hw ev hL (ih.2 hf) ih.1
+
+/-- **While the harvest flag is up the day about to be simulated is not a growing day** (every
+unfinished reachable state). -/
+theorem no_growing_day_while_flag (hw : WF c) {ev : Ev} {s : St} (hr : Reach c ev s)
+    (hf : s.finished = false) (hfl : s.harvestFlag = true) : gsOf c s = false :=
+  gsOf_false_of_flag ((histG_of_reach hw hr).2 hf) hfl
+
+/-- **After a day of a season met the end-of-season condition, no later simulated day of that
+season is a growing day** (so `dap = 0` on it). -/
+theorem no_growing_day_after_end (hw : WF c) {ev : Ev} {s : St} (hr : Reach c ev s) :
+    ∀ r ∈ s.rows, ∀ r' ∈ s.rows, r.season = r'.season → r.endc = true → r.t < r'.t →
+      r'.gs = false ∧ r'.dap = 0 := by
+  intro r hm r' hm' hs he ht
+  have hg : r'.gs = false :=
+    (histG_of_reach hw hr).1 r (by simpa [St.rows] using hm) r' (by simpa [St.rows] using hm') hs he ht
+  refine ⟨hg, ?_⟩
+  have := dap_counts hw hr r' hm'
+  simpa [hg] using this
+
+/-- **After a season's summary row has been written, no later simulated day of that season is a
+growing day**: if the summary has the row `(k, t)` then every row of season `k` with step `> t`
+has `growing_season = False` and `dap = 0`.  (With the off-season simulated these are the fallow
+days from the harvest date to the day before the next planting date.) -/
+theorem no_growing_day_after_summary (hw : WF c) {ev : Ev} {s : St} (hr : Reach c ev s)
+    {k : Int} {t : Nat} (h : (k, t) ∈ s.summary) :
+    ∀ r ∈ s.rows, r.season = k → t < r.t → r.gs = false ∧ r.dap = 0 := by
+  obtain ⟨r0, hr0, a, b, e, _⟩ := (season_ends_first hw hr k t).mp h
+  intro r hm hs ht
+  exact no_growing_day_after_end hw hr r0 hr0 r hm (by rw [a, hs]) e (by omega)
+
+/-- the growing days of season `k` all lie in `[planting k, harvest k)` and, once the summary row
+`(k, t)` exists, at or before `t` -/
+theorem growing_days_within_season (hw : WF c) {ev : Ev} {s : St} (hr : Reach c ev s)
+    {k : Int} {t : Nat} (h : (k, t) ∈ s.summary) :
+    ∀ r ∈ s.rows, r.season = k → r.gs = true →
+      c.pl k.toNat ≤ r.t ∧ r.t ≤ t ∧ (r.t : Int) + 1 ≤ c.hv k.toNat := by
+  intro r hm hs hg
+  obtain ⟨_, h2, h3⟩ := gs_meaning hw hr r hm hg
+  rw [hs] at h2 h3
+  refine ⟨h2, ?_, h3⟩
+  by_cases hlt : t < r.t
+  · have := (no_growing_day_after_summary hw hr h r hm hs hlt).1
+    rw [hg] at this; cases this
+  · omega
+
 /-! ### Non-vacuity and the error classes of ill-formed configurations -/
 
 def resultOf (r : Except Err St) : Except Err (Nat × Int × Bool × List (Int × Nat)) :=
@@ -1375,5 +1580,17 @@ def small : Cfg := { n := 6, planting := [0], harvest := [3], offSeason := false
 /-- the second call finishes the run (harvest on day 2), a further call raises -/
 example : resultOf (init small >>= runCalls small noEv [2, 5]) = .ok (2, 0, true, [(0, 2)]) := by rfl
 example : resultOf (init small >>= runCalls small noEv [2, 5, 1]) = .error .finished := by rfl
+
+def offCfg : Cfg :=
+  { n := 12, planting := [0, 6], harvest := [3, 9], offSeason := true, season0 := 0 }
+/-- off-season simulated, the crop never matures: the summary row of season 0 is written on step 2
+(the day before the latest harvest date 3); steps 3, 4, 5 — still season 0 — are not growing days
+(`gs = false`, `dap = 0`); season 1 starts on step 6 -/
+example : (init offCfg >>= runSteps offCfg noEv 7).map
+      (fun s => (s.summary, s.rows.map (fun r => (r.t, r.season, r.gs, r.dap)))) =
+    .ok ([(0, 2)], [(0, 0, true, 1), (1, 0, true, 2), (2, 0, true, 3), (3, 0, false, 0),
+      (4, 0, false, 0), (5, 0, false, 0), (6, 1, true, 1)]) := by rfl
+example : Valid offCfg := by decide
+
 
 end Aqua.Clock
